@@ -41,7 +41,7 @@ var _ *openfgav1.Userset
 //@   ensures keeps_others: forall j int :: 0 <= j && j < len(tupleCycles) && tupleCycles[j] != nodeID ==> (exists i int :: 0 <= i && i < len(result) && result[i] == tupleCycles[j])
 //@   loop 1 invariant fresh(result) && len(result) <= $i
 //@   loop 1 invariant forall i int :: 0 <= i && i < len(result) ==> result[i] != nodeID
-//@   loop 1 invariant forall i int :: 0 <= i && i < len(result) ==> (exists j int :: 0 <= j && j < $i && tupleCycles[j] == result[i])
+//@   loop 1 invariant forall i int :: 0 <= i && i < len(result) ==> (exists j int :: 0 <= j && j < len(tupleCycles) && tupleCycles[j] == result[i])
 //@   loop 1 invariant forall j int :: 0 <= j && j < $i && tupleCycles[j] != nodeID ==> (exists i int :: 0 <= i && i < len(result) && result[i] == tupleCycles[j])
 //@   loop 1 invariant forall j int :: 0 <= j && j < len(tupleCycles) ==> tupleCycles[j] == old(tupleCycles[j])
 
